@@ -7,7 +7,11 @@ parameter combination; each cell is compared with the published formula evaluate
 (xrmc/oracles/spectral.py).  true_color: every red raster over a small alphabet x nodata (space true_color), and every
 red raster over the values ON and immediately on either side of nodata IN THE RED RASTER'S OWN DTYPE (float64 and float32
 neighbours of nodata; 2^24-1, 2^24, 2^24+1 for int64/uint32/int32 rasters) x nodata (space true_color_nodata_edge).  The four normalised-difference indices are additionally checked for
-|v| <= 1 (non-negative bands), exact negation under band swap and exact invariance under 2^k scaling."""
+|v| <= 1 (non-negative bands), exact negation under band swap and exact invariance under 2^k scaling.
+MEMORY LAYOUT of the band rasters (spaces <index>_mem): the same every-tuple raster on a non-square shape, wide and
+tall, with each band INDEPENDENTLY stored row-major (C), column-major (np.asfortranarray, F), as the transposed view of
+a row-major (x, y) array (T) or as a non-contiguous view - every other column of a wider raster (S); the formula is per
+cell, so the oracle is the same; the band-swap / 2^k relations are re-checked with the layouts kept."""
 import itertools
 
 import numpy as np
@@ -38,12 +42,21 @@ TC_EDGE_NODATA = {"f8": (1, 0, 5, 16777216, 0.1), "f4": (1, 0, 5, 16777216, 0.1,
 TC_EDGE_SHAPES = ((1, 1), (1, 2), (1, 3))
 TC_SHAPES = {"quick": ((1, 1), (1, 2), (1, 3), (2, 2)), "thorough": ((1, 1), (1, 2), (1, 3), (2, 2), (1, 5))}
 RTOL, ATOL = 1e-6, 1e-12
+# memory layout of one band raster (simplest first)
+MEM_KINDS = (("C", "row-major, owns its data"), ("F", "column-major (np.asfortranarray), owns its data"),
+             ("T", "transposed view of a row-major (x, y) array"),
+             ("S", "non-contiguous view: every other column of a row-major raster twice as wide"))
+EVI_PUBLISHED = (6.0, 7.5, 1.0, 2.5)
+# band dtypes of the memory-layout spaces (quick: one integer type, float32 = the kernels' own type, float64)
+MEM_DTYPES = {"quick": ("u1", "f4", "f8"), "thorough": DTYPES}
 
 RULE = ("index spaces: rank -> (dtype of each band, layout, parameter combination); layouts 0..2 hold EVERY tuple of "
         "band values over the per-dtype alphabets in one raster (natural order / reversed+rotated single row / "
         "transposed shape), layouts >= 3 are the 1-cell rasters of each tuple; every cell is compared with the "
         "published formula; a case is non-trivial when its output has a finite non-zero cell; true_color: rank -> "
-        "(dtype, shape, every red raster over the alphabet, nodata); true_color_nodata_edge: rank -> (dtype, nodata, "
+        "(dtype, shape, every red raster over the alphabet, nodata); <index>_mem spaces: rank -> (orientation wide/tall, "
+        "memory layout of each band C/F/T/S independently, dtype of each band [quick: u1/f4/f8], parameter combination) on the "
+        "every-tuple raster of a non-square shape; true_color_nodata_edge: rank -> (dtype, nodata, "
         "shape, every red raster over {nodata and its neighbours in the raster dtype, NaN}); distinct = distinct (inputs, output) digests")
 ASSUMPTIONS = [
     "NumPy backend only (Dask is covered by C01)",
@@ -59,6 +72,13 @@ ASSUMPTIONS = [
     "gain < 0 and non-numeric c1/c2 are explored and counted (counter invalid_*), not asserted",
     "EVI parameters are passed as Python floats; quick tier: 1-cell EVI rasters only for equal band dtypes (the "
     "per-cell kernel does not depend on the combination), thorough: for every dtype combination",
+    "memory layouts (<index>_mem spaces): row-major, column-major, transposed view, every-other-column view, "
+    "independently per band; negative strides, broadcast (zero-stride) bands and non-native byte order are not "
+    "generated; EVI takes the published coefficients (c1=6, c2=7.5, L=1, G=2.5) and, in the thorough tier, every "
+    "parameter combination with all-float64 bands (parameters are scalars, orthogonal to the "
+    "layout; every combination is enumerated with row-major bands in the evi space); quick tier: band dtypes "
+    "uint8 / float32 / float64 in the _mem spaces (all five in thorough); true_color is explored with row-major "
+    "bands only",
     "true_color: only shape, dtype and the alpha channel are asserted; RGB values are not part of the statement",
     "true_color: 'red <= nodata' is decided exactly on the cell as stored in the red raster's own dtype and nodata as "
     "passed (Python number).  float32 red raster with a nodata that is not float32-representable (0.1, 2^24+3): the "
@@ -69,6 +89,14 @@ BOUNDS = {t: {
     "band_alphabets": {k: [str(x) for x in v] for k, v in DT_ALPHA.items()},
     "band_dtypes": "every combination of " + ",".join(DTYPES),
     "soil_factor": list(SOIL), "c1": list(C12S), "c2": list(C12S), "gain": list(GAINS), "scale_k": list(SCALE_K),
+    "memory_layouts": {"kinds": dict(MEM_KINDS), "per_band": "independently: %d^2 = %d combinations for 2-band indices, "
+                       "%d^3 = %d for 3-band indices" % (len(MEM_KINDS), len(MEM_KINDS) ** 2, len(MEM_KINDS),
+                                                         len(MEM_KINDS) ** 3),
+                       "shapes": "every band tuple in one raster of shape (h, n/h) [one padding column when that is "
+                                 "square] and its tall counterpart (n/h, h); h = size of the first band's alphabet",
+                       "band_dtypes": "every combination of " + ",".join(MEM_DTYPES[t]),
+                       "evi_params": "(c1, c2, soil_factor, gain) = (6, 7.5, 1, 2.5)"
+                                     + ("; all combinations for all-float64 bands" if t == "thorough" else "")},
     "true_color": {"red_alphabets": {k: [str(x) for x in v] for k, v in TC_ALPHA.items()},
                    "shapes": [list(s) for s in TC_SHAPES[t]], "nodata": list(NODATA)},
     "true_color_nodata_edge": {
@@ -83,6 +111,25 @@ BOUNDS = {t: {
 def _da(a):
     import xarray as xr
     return xr.DataArray(a, dims=("y", "x"))
+
+
+def relayout(a, kind):
+    """A fresh array equal to `a` (same shape, dtype, values) stored with memory layout `kind` (see MEM_KINDS)."""
+    if kind == "C":
+        r = np.array(a, order="C", copy=True)
+    elif kind == "F":
+        r = np.array(a, order="F", copy=True)
+    elif kind == "T":
+        r = np.array(a.T, order="C", copy=True).T
+    elif kind == "S":
+        big = np.empty((a.shape[0], 2 * a.shape[1]), dtype=a.dtype)
+        big[:, 0::2] = a
+        big[:, 1::2] = a[::-1, ::-1]                      # unrelated values in the skipped columns
+        r = big[:, 0::2]
+    else:
+        raise ValueError(kind)
+    assert r.shape == a.shape and r.dtype == a.dtype and np.array_equal(r, a, equal_nan=(a.dtype.kind == "f"))
+    return r
 
 
 def _fmt(t):
@@ -114,6 +161,7 @@ class IndexSpace(Space):
         self.size = self.parts.size
         self.weight = 3.0 if nb == 3 else 1.0
         self._tuples, self._exp = {}, {}
+        self._mem = self._shape = None
 
     def setup(self):
         from xrspatial import multispectral
@@ -142,14 +190,24 @@ class IndexSpace(Space):
         else:
             order, shape = [lay - 3], (1, 1)
         arrays = [np.array([T[i][b] for i in order], dtype=dt[b]).reshape(shape) for b in range(len(dt))]
-        return dt, lay, pi, order, arrays
+        return dt, lay, pi, order, arrays, None
 
     def describe(self, rank):
-        dt, lay, pi, order, arrays = self.case(rank)
+        dt, lay, pi, order, arrays, mem = self.case(rank)
         d = {"function": self.fn_name, "layout": lay, "params": dict(zip(self.pnames, self.params[pi]))}
+        if mem:
+            d["layout"] = "every tuple, " + ("wide" if lay == 0 else "tall (tuples run down the columns)")
+            d["memory_layout"] = {b: "%s = %s" % (k, dict(MEM_KINDS)[k]) for b, k in zip(self.bands, mem)}
         for nme, a in zip(self.bands, arrays):
             d[nme] = a
         return d
+
+    @staticmethod
+    def fresh(arrays, mem):
+        """Private copies of the band rasters for one call (memory layouts `mem`, row-major when None)."""
+        if mem is None:
+            return [a.copy() for a in arrays]
+        return [relayout(a, k) for a, k in zip(arrays, mem)]
 
     def expected(self, dt, pi):
         key = (dt, pi)
@@ -178,24 +236,29 @@ class IndexSpace(Space):
     def viol(self, out, rank, kind, dt, pi, t, text, observed=None, expected=None, sig=None):
         ptxt = ",".join("%s=%r" % kv for kv in zip(self.pnames, self.params[pi]))
         out.count("viol.%s.%s" % (self.fn_name, kind))
-        out.violation(rank, "%s.%s|%s|%s|bands=%s" % (self.fn_name, kind, "/".join(dt), ptxt, _fmt(t)),
-                      "%s(%s%s) [%s]: %s" % (self.fn_name, ", ".join("%s=%r" % (b, float(v)) for b, v in
-                                                                     zip(self.bands, t)),
-                                             (", " + ptxt) if ptxt else "", "/".join(dt), text),
+        mem = self._mem
+        mkey = ("|mem=%s|%dx%d" % ("/".join(mem), self._shape[0], self._shape[1])) if mem else ""
+        mtxt = (" bands stored %s, raster %dx%d" % ("/".join(mem), self._shape[0], self._shape[1])) if mem else ""
+        out.violation(rank, "%s.%s|%s|%s|bands=%s%s" % (self.fn_name, kind, "/".join(dt), ptxt, _fmt(t), mkey),
+                      "%s(%s%s) [%s%s]: %s" % (self.fn_name, ", ".join("%s=%r" % (b, float(v)) for b, v in
+                                                                       zip(self.bands, t)),
+                                               (", " + ptxt) if ptxt else "", "/".join(dt), mtxt, text),
                       case=self.describe(rank), observed=observed, expected=expected, sig=sig)
 
     def one(self, rank, out):
-        dt, lay, pi, order, arrays = self.case(rank)
+        dt, lay, pi, order, arrays, mem = self.case(rank)
+        self._mem, self._shape = mem, arrays[0].shape
         params = self.params[pi]
         T = self.tuples(dt)
         calls = 1
         try:
-            o = self.call([a.copy() for a in arrays], params, by_keyword=(lay % 2 == 1))
+            o = self.call(self.fresh(arrays, mem), params, by_keyword=(lay % 2 == 1))
         except Exception as e:                                       # noqa: BLE001
             out.case(outcome=bytes64(repr(e).encode()), nontrivial=False)
             self.viol(out, rank, "raises", dt, pi, T[order[0]], "raised %r" % (e,), observed=repr(e))
             return
-        digest = bytes64(b"".join(a.tobytes() for a in arrays) + repr(params).encode() + o.tobytes())
+        digest = bytes64(b"".join(a.tobytes() for a in arrays) + repr(params).encode() + o.tobytes()
+                         + (repr((mem, arrays[0].shape)).encode() if mem else b""))
         fin = np.isfinite(o)
         nontrivial = bool(np.any(fin & (o != 0)))
         if o.shape != arrays[0].shape:
@@ -250,7 +313,7 @@ class IndexSpace(Space):
                           observed=o)
                 return
             out.ok(int(np.sum(nonneg)))
-            osw = self.call([b.copy(), a.copy()], params, by_keyword=False)
+            osw = self.call(self.fresh([b, a], mem[::-1] if mem else None), params, by_keyword=False)
             calls += 1
             if not np.array_equal(osw, -o, equal_nan=True):
                 with np.errstate(invalid="ignore"):
@@ -274,7 +337,7 @@ class IndexSpace(Space):
                 if not mask.any():
                     continue
                 sc = [np.where(mask, s, arr.astype(np.float64)).astype(arr.dtype) for s, arr in zip(scaled, (a, b))]
-                ok_ = self.call(sc, params, by_keyword=False)
+                ok_ = self.call(self.fresh(sc, mem), params, by_keyword=False)
                 calls += 1
                 if not np.array_equal(ok_, o, equal_nan=True):
                     with np.errstate(invalid="ignore"):
@@ -286,10 +349,54 @@ class IndexSpace(Space):
                     return
                 out.ok(int(mask.sum()))
         out.case(outcome=digest, nontrivial=nontrivial, calls=calls)
-        if out.want_sample() and lay == 1 and len(set(dt)) > 1:
+        if out.want_sample() and (lay == 1 or mem) and len(set(dt)) > 1:
             s = self.describe(rank)
             s["out"] = o
             out.sample(s)
+
+
+class IndexMemSpace(IndexSpace):
+    """Memory layout of the band rasters: rank -> (orientation, memory layout of each band, dtype of each band,
+    parameter combination).  The raster holds EVERY tuple of band values (as IndexSpace layout 0) on a non-square
+    shape (h, n/h) - padded by one column repeating the first tuples when that would be square - or its tall
+    counterpart (n/h, h) with the tuples running down the columns.  All of IndexSpace's assertions apply."""
+
+    def __init__(self, name, tier="quick"):
+        IndexSpace.__init__(self, name, tier)
+        self.name = name + "_mem"
+        nb = len(self.bands)
+        self.mems = list(itertools.product([k for k, _ in MEM_KINDS], repeat=nb))
+        self.dts = list(itertools.product(MEM_DTYPES[tier], repeat=nb))
+        # per dtype combination: the parameter indices explored (EVI: the published coefficients; thorough tier:
+        # every combination with all-float64 bands)
+        allp = list(range(len(self.params)))
+        if name == "evi":
+            pub = [self.params.index(EVI_PUBLISHED)]
+            self.pis = [allp if (tier == "thorough" and set(dt) == {"f8"}) else pub for dt in self.dts]
+        else:
+            self.pis = [allp for dt in self.dts]
+        self.dtparts = SumSpace([("/".join(dt), len(pis)) for dt, pis in zip(self.dts, self.pis)])
+        self.size = 2 * len(self.mems) * self.dtparts.size
+        # memory layout is the slowest-varying digit and the shards are few: a worker compiles only the kernel
+        # specialisations of the layouts in its shard
+        self.grain = max(1, self.size // 8)
+
+    def case(self, rank):
+        mo, local = divmod(rank, self.dtparts.size)
+        orient, mi = divmod(mo, len(self.mems))
+        p, j = self.dtparts.locate(local)
+        dt, pi = self.dts[p], self.pis[p][j]
+        T = self.tuples(dt)
+        n = len(T)
+        h = len(DT_ALPHA[dt[0]])
+        w = n // h + (1 if n // h == h else 0)
+        order = list(range(n)) + list(range(h * w - n))
+        if orient == 0:
+            shape = (h, w)
+        else:
+            order, shape = np.array(order).reshape(h, w).T.ravel().tolist(), (w, h)
+        arrays = [np.array([T[i][b] for i in order], dtype=dt[b]).reshape(shape) for b in range(len(dt))]
+        return dt, orient, pi, order, arrays, self.mems[mi]          # orient 1 (tall): bands passed by keyword
 
 
 # ---------------------------------------------------------------------------------------------------
@@ -442,5 +549,5 @@ class TrueColorEdgeSpace(TrueColorSpace):
 
 
 def build(tier):
-    return [IndexSpace(n, tier) for n in ref.INDICES] + [InvalidParamSpace(), TrueColorSpace(tier),
-                                                         TrueColorEdgeSpace(tier)]
+    return ([IndexSpace(n, tier) for n in ref.INDICES] + [IndexMemSpace(n, tier) for n in ref.INDICES]
+            + [InvalidParamSpace(), TrueColorSpace(tier), TrueColorEdgeSpace(tier)])
